@@ -344,7 +344,13 @@ func (f *Formatter) formatSwitchStatement(stmt *ast.SwitchStatement) string {
 
 	buf.Reset()
 	buf.WriteString("switch ")
-	buf.WriteString(strings.TrimSpace(stmt.Control.String()))
+	if v := f.formatComment(stmt.Control.Leading, " ", 0); v != "" {
+		buf.WriteString(v)
+	}
+	buf.WriteString("(" + f.formatExpression(stmt.Control.Expression).String() + ")")
+	if v := strings.TrimSpace(f.formatComment(stmt.Control.Trailing, " ", 0)); v != "" {
+		buf.WriteString(" " + v)
+	}
 	buf.WriteString(" {\n")
 	for _, c := range stmt.Cases {
 		// If indent_case_labels is false, subtract 1 nest level
